@@ -14,14 +14,17 @@ pub struct Finding {
 
 pub struct Known {
     pub findings: Vec<Finding>,
+    pub raw: Value,
 }
 
 impl Known {
     pub fn load() -> Known {
         let path = std::env::var("TAU_KNOWN").unwrap_or_else(|_| "/verif/known_findings.json".to_string());
         let mut findings = vec![];
+        let mut raw = Value::Null;
         if let Ok(text) = std::fs::read_to_string(&path) {
             if let Ok(v) = serde_json::from_str::<Value>(&text) {
+                raw = v.clone();
                 if let Some(arr) = v.get("findings").and_then(|f| f.as_array()) {
                     for f in arr {
                         let g = |k: &str| f.get(k).and_then(|x| x.as_str()).unwrap_or("").to_string();
@@ -42,7 +45,7 @@ impl Known {
                 }
             }
         }
-        Known { findings }
+        Known { findings, raw }
     }
 
     pub fn has_family(&self, prop: &str, family: &str) -> bool {
@@ -51,6 +54,15 @@ impl Known {
 
     pub fn by_witness(&self, prop: &str, name: &str) -> Option<&Finding> {
         self.findings.iter().find(|f| f.property == prop && f.witnesses.iter().any(|w| w == name))
+    }
+
+    /// `witness_members` / `witness_doc` of a finding (C08 member-list witnesses).
+    pub fn witness_members(&self, id: &str) -> Option<(Vec<String>, String)> {
+        let arr = self.raw.get("findings")?.as_array()?;
+        let f = arr.iter().find(|f| f.get("id").and_then(|x| x.as_str()) == Some(id))?;
+        let ms: Vec<String> = f.get("witness_members")?.as_array()?.iter().filter_map(|x| x.as_str().map(|s| s.to_string())).collect();
+        let d = f.get("witness_doc")?.as_str()?.to_string();
+        Some((ms, d))
     }
 
     pub fn for_prop(&self, prop: &str) -> Vec<&Finding> {
